@@ -50,9 +50,12 @@ func newQWorld() *qWorld {
 	p.AddSymbol("f", ast.NodeTypeFloat64)
 	p.AddSymbol("b", ast.NodeTypeBool)
 	p.AddSymbol("t", ast.NodeTypeDatetime)
+	// symbols whose name differs from the key they are stored under
+	p.AddSymbolWithKey("sk", ast.NodeTypeString, "s")
 	roles := p.AddSetSymbol("roles", ast.NodeTypeString)
 	w.rolesIdx = p.AddSetIndex(roles)
 	boss := p.AddFkSymbol("boss", p)
+	p.AddFkSymbolWithKey("chief", "boss", p)
 	reports := p.AddFkSetSymbol("reports", p)
 	p.AddNullableFkIndex(boss, reports)
 	symPL := p.AddFkSetSymbol("places", w.places)
@@ -91,9 +94,9 @@ func (w *qWorld) close() {
 // newQDS returns an empty reference dataset with the schema of qWorld.
 func newQDS() *rm.DS {
 	people := &rm.Store{Name: "people", Ents: map[string]*rm.Ent{},
-		Scalars: map[string]rm.Kind{"s": rm.KStr, "i": rm.KInt, "nn": rm.KInt, "f": rm.KFlt, "b": rm.KBool, "t": rm.KTime},
+		Scalars: map[string]rm.Kind{"s": rm.KStr, "sk": rm.KStr, "i": rm.KInt, "nn": rm.KInt, "f": rm.KFlt, "b": rm.KBool, "t": rm.KTime},
 		SetSyms: map[string]string{"roles": "", "places": "places"},
-		FkSyms:  map[string]string{"boss": "people"},
+		FkSyms:  map[string]string{"boss": "people", "chief": "people"},
 		BackRef: map[string][2]string{"reports": {"people", "boss"}},
 		MapSyms: map[string]bool{"tags": true}}
 	places := &rm.Store{Name: "places", Ents: map[string]*rm.Ent{},
@@ -232,10 +235,14 @@ func applyChoice(e *rm.Ent, field string, c int, ids []string) {
 			b := ids[c-1]
 			e.Fk["boss"] = &b
 		}
+		e.Fk["chief"] = e.Fk["boss"] // the symbol `chief` reads the key `boss`
 	case "tag":
 		e.Tags["k"] = qDomains["tag"][c]
 	default:
 		e.F[field] = qDomains[field][c]
+		if field == "s" {
+			e.F["sk"] = e.F["s"] // the symbol `sk` reads the key `s`
+		}
 	}
 }
 
@@ -314,8 +321,10 @@ func symFields(sym string) []string {
 		switch part {
 		case "s", "i", "nn", "f", "b", "t", "roles", "boss", "places":
 			out = append(out, part)
-		case "reports":
+		case "reports", "chief":
 			out = append(out, "boss")
+		case "sk":
+			out = append(out, "s")
 		case "tags":
 			out = append(out, "tag")
 		case "people":
